@@ -360,7 +360,39 @@ func Run(tier string, seed uint64, modelPath, repo string, out *res.Result) erro
 		"non-trivial = the document did not crash and produced at least one page; distinct = distinct document text."
 	docs := allDocs(tier, seed)
 	if tier != "thorough" {
-		return runDocs(tier, seed, modelPath, repo, out, docs)
+		// quick: a small pass under the race detector in parallel with everything else (the -race
+		// objects are in the build cache after the first run): same-language hyphenation documents
+		// first (they reach the process-wide dictionary cache at the same time), then generated ones
+		raceOut := res.New(out.Property, tier, seed)
+		raceDone := make(chan error, 1)
+		go func() {
+			r := rng.New(seed ^ 0x7ace)
+			var rd []Doc
+			for i := 0; i < 8; i++ {
+				rd = append(rd, genHyphDoc(r.Sub(), i, "en"))
+			}
+			for i := 0; i < 12 && i < len(docs); i++ {
+				rd = append(rd, docs[len(docs)-1-i])
+			}
+			for i := range rd {
+				rd[i].ID = i
+			}
+			raceDone <- raceRun(&runner{out: raceOut, repo: repo}, rd, seed)
+		}()
+		err := runDocs(tier, seed, modelPath, repo, out, docs)
+		if rerr := <-raceDone; rerr != nil {
+			out.NotChecked = append(out.NotChecked, "race detector pass: "+rerr.Error())
+		}
+		for _, f := range raceOut.Findings {
+			out.Add(f)
+		}
+		for k, v := range raceOut.Dist {
+			if !strings.HasPrefix(k, "finding:") {
+				out.Dist[k] += v
+			}
+		}
+		out.Notes = append(out.Notes, raceOut.Notes...)
+		return err
 	}
 	// thorough: the race-detector run (first documents) in parallel with `shards` child processes,
 	// each running the complete scenario set on its share of the documents
@@ -490,7 +522,16 @@ func allDocs(tier string, seed uint64) []Doc {
 	r := rng.New(seed)
 	docs := make([]Doc, nDocs)
 	for i := range docs {
-		docs[i] = genDoc(r.Sub(), i)
+		switch {
+		case i%8 == 3:
+			docs[i] = genStringsDoc(r.Sub(), i) // named strings over several pages
+		case i%20 == 7:
+			docs[i] = genUnitsDoc(r.Sub(), i)
+		case i%40 == 11:
+			docs[i] = genHyphDoc(r.Sub(), i, rng.Pick(r, "en", "fr", "de"))
+		default:
+			docs[i] = genDoc(r.Sub(), i)
+		}
 	}
 	docs = append(corpusDocs(), docs...)
 	for i := range docs {
@@ -622,9 +663,11 @@ func runDocs(tier string, seed uint64, modelPath, repo string, out *res.Result, 
 	// (b) collect
 	fresh.wait(base)
 
-	if tier != "thorough" {
-		out.NotChecked = append(out.NotChecked, "race detector run (thorough tier only)")
-	}
+	// (e) same-language hyphenation at the same time, in a child process (fatal errors observed)
+	hyphScenario(rn, seed, tier)
+	// (f) two different font configurations in this process vs one-configuration processes
+	mixedFontsScenario(rn, seed, tier)
+
 	if model != nil {
 		out.Dist["model-calls"] = model.N
 	}
